@@ -133,7 +133,7 @@ Definition adj_starts (s : state) (width : nat) : list nat :=
             | Some true => Nat.leb (cur + width) (length (items s))
             | _ => false
             end)
-         (seq 0 (S (sc_end s))).
+         (seq (sc_start s) (S (sc_end s) - sc_start s)).
 
 Record adj_best := mkBest { b_consumed : nat; b_args : state; b_err : message }.
 
